@@ -76,6 +76,12 @@ CHECKS['C14'] = ('exploration', 'bounded exhaustive enumeration of interval()/de
     'tick times, yielded values, IntervalExceeded (exactly when a body run exceeded the period), ValueError for negative periods and the loop end must equal the arithmetic model, and every iteration step must suspend at least once (FIFO monitored) before the next body.',
     'Trusts the 25-line tick model; grid origin = start of iteration.',
     'DESIGN.md section 3 C14')
+CHECKS['C16'] = ('fault_enumeration', 'bounded exhaustive enumeration of collect()/first() calls (durations x results x failures x count x consumer) with the caller cancelled at every activation boundary, vs. a sort-by-completion model',
+    'Every assignment of durations {0,1,2}, results and <= 2 failures to <= 3/4 activities (incl. an activity that itself collects), every count in {0..n+1, None, default} and three consumer behaviours is executed, fault-free and with the caller cancelled at every activation boundary; '
+    'collect must return all results in argument order at the slowest time or raise Concurrent of exactly the failures at the first failure time; first must yield the earliest finishers in completion order at max(completion, consumer ready), stop after k, raise ValueError for k > n; '
+    'and no record of any aborted activity (or its sub-activities) may follow the end of the call.',
+    'Trusts the model in vk/checks/c16.py; one open known finding (failure while the consumer of first() is in its loop body).',
+    'DESIGN.md section 3 C16')
 PENDING = {}
 
 def main():
